@@ -33,11 +33,10 @@ import rs2lean5a  # noqa: E402
 import rs2lean6d  # noqa: E402
 from rs2lean_selftest import reformat_variants, mutate  # noqa: E402
 
-PARTS = {}
-for _f in sorted(os.listdir(os.path.join(LEAN, "JsonbModel", "Proofs"))):
-    _m = re.fullmatch(r"TranslatedAgreeJ(\d+)\.lean", _f)
-    if _m:
-        PARTS[int(_m.group(1))] = _f
+PARTS = {}          # the parts the root TranslatedAgreeJ.lean imports (J8, the bridge to phase 6b, is not one of them)
+for _m in re.finditer(r"^import JsonbModel\.Proofs\.TranslatedAgreeJ(\d+)\s*$",
+                      open(os.path.join(LEAN, "JsonbModel", "Proofs", "TranslatedAgreeJ.lean"), encoding="utf-8").read(), re.M):
+    PARTS[int(_m.group(1))] = "TranslatedAgreeJ%s.lean" % _m.group(1)
 
 P = "src/jsonpath/parser.rs"
 PA = "src/jsonpath/path.rs"
